@@ -81,6 +81,9 @@ var (
 
 func intp(i int) *int { return &i }
 
+// window is one backing array; its prefixes share the address of element 0.
+var window = []int{1, 2, 3}
+
 func kinds() []*kind {
 	var ks []*kind
 	add := func(name string, zero interface{}, eq func(x, y val) (bool, bool), nilable bool, dom ...val) {
@@ -110,7 +113,8 @@ func kinds() []*kind {
 	add("struct{interface{}}", new(SI), deepEq, false, val{"SI{nil}", SI{}}, val{"SI{1}", SI{1}}, val{"SI{1}#2", SI{1}}, val{`SI{"1"}`, SI{"1"}}, val{"SI{[]int{1}}", SI{[]int{1}}}, val{"SI{[]int{1}}#2", SI{[]int{1}}}, val{"SI{[]int{2}}", SI{[]int{2}}})
 	add("[2]*int", new([2]*int), deepEq, false, val{"{nil,nil}", [2]*int{}}, val{"{&1,nil}", [2]*int{intp(1), nil}}, val{"{&1,&2}", [2]*int{intp(1), intp(2)}}, val{"{&1,&2}#2", [2]*int{intp(1), intp(2)}}, val{"{&2,&1}", [2]*int{intp(2), intp(1)}})
 	add("[1]interface{}", new([1]interface{}), deepEq, false, val{"{nil}", [1]interface{}{}}, val{"{1}", [1]interface{}{1}}, val{"{map}", [1]interface{}{map[string]int{"a": 1}}}, val{"{map}#2", [1]interface{}{map[string]int{"a": 1}}}, val{"{S{1,x}}", [1]interface{}{S{1, "x"}}})
-	add("[]int", new([]int), deepEq, true, val{"nil", []int(nil)}, val{"empty", []int{}}, val{"{0}", []int{0}}, val{"{1}", []int{1}}, val{"{1}#2", []int{1}}, val{"{1,2}", []int{1, 2}}, val{"{2,1}", []int{2, 1}}, val{"{1,2,3}", []int{1, 2, 3}})
+	add("[]int", new([]int), deepEq, true, val{"nil", []int(nil)}, val{"empty", []int{}}, val{"{0}", []int{0}}, val{"{1}", []int{1}}, val{"{1}#2", []int{1}}, val{"{1,2}", []int{1, 2}}, val{"{2,1}", []int{2, 1}}, val{"{1,2,3}", []int{1, 2, 3}},
+		val{"w[:0]", window[:0]}, val{"w[:1]", window[:1]}, val{"w[:2]", window[:2]}, val{"w[:3]", window[:3]})
 	add("map[string]int", new(map[string]int), deepEq, true, val{"nil", map[string]int(nil)}, val{"empty", map[string]int{}}, val{"{a:1}", map[string]int{"a": 1}}, val{"{a:1}#2", map[string]int{"a": 1}},
 		val{"{a:2}", map[string]int{"a": 2}}, val{"{b:1}", map[string]int{"b": 1}}, val{"{a:1,b:2}", map[string]int{"a": 1, "b": 2}})
 	add("*int", new(*int), deepEq, true, val{"nil", (*int)(nil)}, val{"&0", intp(0)}, val{"&1", intp(1)}, val{"&1#2", intp(1)}, val{"&2", intp(2)}, val{"&max", intp(int(maxI64))})
